@@ -33,7 +33,7 @@ func init() { register(c01{}) }
 func (c01) ID() string    { return "C01" }
 func (c01) Level() string { return "exploration" }
 func (c01) Rule() string {
-	return "case = 1-3 loggers of kinds Logger / AsyncLogger (with or without a logger-level layout, 1-4 references in random declaration order, each with a level string from the grammar ''|MIN|MIN~MAX over built-in and five user-registered levels in random letter case, equal lower bounds included) or RollingFile (sync/async, with/without separate .wf file), Console, File; logger level strings from the same grammar; configuration rendered in a random spelling; 1-2 client tasks emit 10-40 events through all 15 entry points, Record at every level incl. NONE, MAX-adjacent and custom codes; async kinds are drained by Destroy under the simulated scheduler. Oracle: per reference, delivered set = model set (reference model written from the statement), each exactly once, at the entry point's own level. Literal '~MAX' upper bounds and three-part ranges are not generated (unspecified). Non-trivial = at least one event delivered and at least one filtered out; distinct = distinct (configuration, event list) hashes combined with the context-switch trace hash."
+	return "case = 1-3 loggers of kinds Logger / AsyncLogger (with or without a logger-level layout, 1-4 references in random declaration order, each with a level string from the grammar ''|MIN|MIN~MAX over built-in and eight user-registered levels (one with code math.MinInt32, two that are second names of an existing code) in random letter case, equal lower bounds included, some references to a Discard appender) or RollingFile (sync/async, with/without separate .wf file), Console, File; logger level strings from the same grammar; configuration rendered in a random spelling; 1-2 client tasks emit 10-40 events through all 15 entry points, Record at every level incl. NONE, MAX-adjacent and custom codes; async kinds are drained by Destroy under the simulated scheduler. Oracle: per reference, delivered set = model set (reference model written from the statement), each exactly once, at the entry point's own level. Literal '~MAX' upper bounds and three-part ranges are not generated (unspecified). Non-trivial = at least one event delivered and at least one filtered out; distinct = distinct (configuration, event list) hashes combined with the context-switch trace hash."
 }
 func (c01) Decode(raw json.RawMessage) (any, error) {
 	var s C01Scn
